@@ -156,6 +156,15 @@ def check(ctx, rule):
     fl = s.methods("BinaryCIFFile")
     extra = sorted({t.slice.value for st in stmts(fl["write"]) if isinstance(st, ast.Assign) for t in st.targets
                     if isinstance(t, ast.Subscript) and isinstance(t.slice, ast.Constant) and ast.unparse(t.value) == "serialized_content"})
+    # everything that can refuse (serialisation, packing) happens before the target is opened for writing: a refused write leaves the
+    # file that was there as it was
+    wf_ = ctx.src(BCIF).func("BinaryCIFFile.write")
+    opens_ = [w for w in ast.walk(wf_) if isinstance(w, ast.With) and any(isinstance(i.context_expr, ast.Call) and call_name(i.context_expr) == "open" for i in w.items)]
+    inside_ = [c for w in opens_ for b_ in w.body for c in ast.walk(b_) if isinstance(c, ast.Call)
+               and ((call_name(c) or "").split(".")[-1] in ("serialize", "packb", "pack", "dumps") or (call_name(c) or "") in ("self.write", "BinaryCIFFile.write"))]
+    ctx.ob(f"{rule}.serialised-before-opening", BCIF, "BinaryCIFFile.write", f"{len(opens_)} open(..) block(s), {len(inside_)} serialising call(s) inside",
+           len(opens_) == 1 and not inside_,
+           "opening the path for writing empties the file: a SerializationError raised afterwards leaves an empty file where a valid one was", wf_.lineno)
     ctx.ob(f"{rule}.file-keys", BCIF, "BinaryCIFFile.write", f"extra keys {extra}", extra == ["encoder", "version"],
            "write() adds only the specification's metadata keys to the serialised content", fl["write"].lineno)
     packs = [c for c in calls(fl["write"]) if call_name(c) == "msgpack.packb"]
